@@ -50,10 +50,21 @@ type fileCfg struct {
 	// acquire/release pair on one address, so that the listed accesses (a recorded, still open
 	// finding) are ordered among themselves and the race detector can go on looking for others.
 	KnownRaces []knownRace `json:"knownRaces"`
+	// KnownRaceExprs: an expression (by printed text, optionally only inside Func) is replaced by Call, and Helper
+	// (a function declaration) is appended to the file under //go:norace: the access of an open, recorded race
+	// finding whose partner cannot be bracketed is made invisible to the race detector; behaviour is unchanged.
+	KnownRaceExprs []knownRaceExpr `json:"knownRaceExprs"`
 }
 type knownRace struct {
 	ID    string `json:"id"`
 	Match string `json:"match"`
+}
+type knownRaceExpr struct {
+	ID     string `json:"id"`
+	Func   string `json:"func"`
+	Expr   string `json:"expr"`
+	Call   string `json:"call"`
+	Helper string `json:"helper"`
 }
 type harnessCfg struct {
 	Files []fileCfg `json:"files"`
@@ -153,6 +164,7 @@ func rewriteFile(path string, fc fileCfg) ([]byte, string, error) {
 			continue
 		}
 		r.fn = fd.Name.Name
+		r.rewriteKnownExprs(fd.Body)
 		r.rewriteTime(fd.Body)
 		r.rewriteBody(fd.Body)
 	}
@@ -173,11 +185,16 @@ func rewriteFile(path string, fc fileCfg) ([]byte, string, error) {
 	if err := (&printer.Config{Mode: printer.UseSpaces | printer.TabIndent, Tabwidth: 8}).Fprint(&b, fset, f); err != nil {
 		return nil, "", err
 	}
+	for _, k := range fc.KnownRaceExprs {
+		if r.count["knownexpr:"+k.ID] > 0 {
+			fmt.Fprintf(&b, "\n// %s: see rewrite.json knownRaceExprs\n//\n//go:norace\n%s\n", k.ID, k.Helper)
+		}
+	}
 	// the result must parse
 	if _, err := parser.ParseFile(token.NewFileSet(), "out.go", b.Bytes(), 0); err != nil {
 		return nil, "", fmt.Errorf("rewritten file does not parse: %v", err)
 	}
-	keys := []string{"lock", "rlock", "send", "recv", "select", "selectnb", "select-gated", "wait", "go", "time", "maprange", "knownrace"}
+	keys := []string{"lock", "rlock", "send", "recv", "select", "selectnb", "select-gated", "wait", "go", "time", "maprange", "knownrace", "knownexpr"}
 	stats := ""
 	for _, k := range keys {
 		stats += fmt.Sprintf("%s=%d ", k, r.count[k])
@@ -192,6 +209,47 @@ var timeFuncs = map[string]struct {
 	"Now": {"verifNow", false}, "Since": {"verifSince", false}, "Until": {"verifUntil", false},
 	"NewTicker": {"verifNewTicker", true}, "NewTimer": {"verifNewTimer", true}, "After": {"verifAfterT", true},
 	"AfterFunc": {"verifAfterFunc", true}, "Sleep": {"verifSleep", true}, "Tick": {"verifTick", true},
+}
+
+// rewriteKnownExprs replaces configured expressions (call arguments, operands, right-hand sides, results).
+func (r *rw) rewriteKnownExprs(body *ast.BlockStmt) {
+	for _, k := range r.cfg.KnownRaceExprs {
+		if k.Func != "" && k.Func != r.fn {
+			continue
+		}
+		repl := func(e *ast.Expr) {
+			if *e != nil && r.text(*e) == k.Expr {
+				n, err := parser.ParseExpr(k.Call)
+				if err != nil {
+					r.err = fmt.Errorf("knownRaceExprs %s: %v", k.ID, err)
+					return
+				}
+				*e = n
+				r.count["knownexpr:"+k.ID]++
+				r.count["knownexpr"]++
+			}
+		}
+		ast.Inspect(body, func(n ast.Node) bool {
+			switch x := n.(type) {
+			case *ast.CallExpr:
+				for i := range x.Args {
+					repl(&x.Args[i])
+				}
+			case *ast.BinaryExpr:
+				repl(&x.X)
+				repl(&x.Y)
+			case *ast.AssignStmt:
+				for i := range x.Rhs {
+					repl(&x.Rhs[i])
+				}
+			case *ast.ReturnStmt:
+				for i := range x.Results {
+					repl(&x.Results[i])
+				}
+			}
+			return true
+		})
+	}
 }
 
 // rewriteTime replaces time.X(...) calls everywhere in the body (including function literals).
